@@ -315,6 +315,24 @@ def custom_generators(G, P, T):
             'PluginResponsePacket': plugin_response}
 
 
+def layout_sig(definition):
+    """Structural signature of a field list (field types that are instances,
+    e.g. FixedPoint(Short, 12), are described by type and attributes: their
+    default repr is an address, which the allocator reuses)."""
+    def sig(t):
+        if isinstance(t, type):
+            return t
+        attrs = getattr(t, '__dict__', None)
+        if attrs is None:
+            attrs = {k: getattr(t, k) for k in getattr(type(t), '__slots__',
+                                                       ()) if hasattr(t, k)}
+        return (type(t), tuple(sorted(
+            (k, sig(v) if not isinstance(v, (int, float, str, bool,
+                                             type(None))) else v)
+            for k, v in attrs.items())))
+    return [[(n, sig(t)) for n, t in field.items()] for field in definition]
+
+
 def is_custom(K, Packet):
     return K.read is not Packet.read or \
         K.write_fields is not Packet.write_fields
@@ -558,7 +576,8 @@ def run(run):
         both = [K for K in clientbound.play.get_packets(ctxa)
                 if K in clientbound.play.get_packets(ctxb)
                 and not is_custom(K, Packet)
-                and repr(K.get_definition(ctxa)) == repr(K.get_definition(ctxb))
+                and layout_sig(K.get_definition(ctxa)) ==
+                layout_sig(K.get_definition(ctxb))
                 and K.get_id(ctxa) != K.get_id(ctxb)]
         both.sort(key=lambda K: K.__qualname__)
         if not both:
